@@ -91,14 +91,14 @@ func atomicOnlyResult(helper *ssa.Function, fns []*ssa.Function) (int, string, [
 					continue
 				}
 				if cc == nil || cc.Value != ssa.Value(helper) {
-					bad = "is used as a function value in " + fn.Name()
+					bad = "is used as a function value in " + an.NameOf(fn)
 					return
 				}
 			}
 			call, ok := in.(*ssa.Call)
 			if !ok || an.StaticCallee(&call.Call) != helper {
 				if cc != nil && an.StaticCallee(cc) == helper {
-					bad = "is deferred or spawned in " + fn.Name()
+					bad = "is deferred or spawned in " + an.NameOf(fn)
 				}
 				return
 			}
@@ -117,7 +117,7 @@ func atomicOnlyResult(helper *ssa.Function, fns []*ssa.Function) (int, string, [
 					cal = an.StaticCallee(&use.Call)
 				}
 				if cal == nil || cal.Pkg == nil || cal.Pkg.Pkg.Path() != "sync/atomic" || len(use.Call.Args) == 0 || use.Call.Args[0] != ssa.Value(call) {
-					bad = "used in " + fn.Name() + " other than as the operand of a sync/atomic call"
+					bad = "used in " + an.NameOf(fn) + " other than as the operand of a sync/atomic call"
 				}
 			}
 		})
@@ -166,18 +166,18 @@ func runC20(c *core.Ctx, o Options) {
 				// a selector helper: its result may be used only as the address operand of sync/atomic calls, at every use of the helper
 				n, bad, sites := atomicOnlyResult(fn, fns)
 				for _, site := range sites {
-					c.Ob("atomic", site.Parent().Name(), fmt.Sprintf("%s.%s through %s()", owner, a.Field.Name(), fn.Name()), site.Pos()).Ok("the selected counter's address is the operand of a sync/atomic call")
+					c.Ob("atomic", site.Parent().Name(), fmt.Sprintf("%s.%s through %s()", owner, a.Field.Name(), an.NameOf(fn)), site.Pos()).Ok("the selected counter's address is the operand of a sync/atomic call")
 				}
-				ob := c.Ob("atomic", fn.Name(), fmt.Sprintf("%s.%s %s", owner, a.Field.Name(), a.How), a.Instr.Pos())
+				ob := c.Ob("atomic", an.NameOf(fn), fmt.Sprintf("%s.%s %s", owner, a.Field.Name(), a.How), a.Instr.Pos())
 				if bad == "" && n > 0 {
 					ob.Ok("the address returned is handed only to sync/atomic, at %d call sites", n)
 				} else {
-					ob.Fail("the address of %s.%s is returned by %s and then %s: plain access through it would race with the atomic updates", owner, a.Field.Name(), fn.Name(), bad)
+					ob.Fail("the address of %s.%s is returned by %s and then %s: plain access through it would race with the atomic updates", owner, a.Field.Name(), an.NameOf(fn), bad)
 				}
 				continue
 			}
 			if atomics[a.Field] {
-				c.Check(a.Atomic, "atomic", fn.Name(), fmt.Sprintf("%s.%s %s", owner, a.Field.Name(), a.How), a.Instr.Pos(),
+				c.Check(a.Atomic, "atomic", an.NameOf(fn), fmt.Sprintf("%s.%s %s", owner, a.Field.Name(), a.How), a.Instr.Pos(),
 					"through sync/atomic", fmt.Sprintf("%s.%s is updated with sync/atomic elsewhere but accessed here by a plain %s: mixed atomic/plain access is a data race", owner, a.Field.Name(), a.How))
 				continue
 			}
@@ -188,7 +188,7 @@ func runC20(c *core.Ctx, o Options) {
 			}
 			ls := la.At[a.Instr]
 			base := an.Render(a.Base)
-			ob := c.Ob("lockset", fn.Name(), fmt.Sprintf("%s.%s %s", owner, a.Field.Name(), a.How), a.Instr.Pos())
+			ob := c.Ob("lockset", an.NameOf(fn), fmt.Sprintf("%s.%s %s", owner, a.Field.Name(), a.How), a.Instr.Pos())
 			switch {
 			case a.How == "addr-escapes":
 				ob.Fail("the address of guarded field %s.%s escapes: accesses through it cannot be checked", owner, a.Field.Name())
@@ -237,14 +237,14 @@ func runC20(c *core.Ctx, o Options) {
 				return
 			}
 			key := owner + "." + f.Name()
-			ob := c.Ob("complete", fn.Name(), "store to "+key, st.Pos())
+			ob := c.Ob("complete", an.NameOf(fn), "store to "+key, st.Pos())
 			switch exc[key] {
 			case "setter":
 				// premise: an exported one-block method that only performs this store
-				if fn.Parent() == nil && len(fn.Blocks) == 1 && isExported(fn.Name()) && countStores(fn) == 1 {
-					ob.Ok("configuration setter %s (documented to be called before the session runs); its only effect is this store", fn.Name())
+				if fn.Parent() == nil && len(fn.Blocks) == 1 && isExported(an.NameOf(fn)) && countStores(fn) == 1 {
+					ob.Ok("configuration setter %s (documented to be called before the session runs); its only effect is this store", an.NameOf(fn))
 				} else {
-					ob.Fail("%s is a configure-before-run field but is stored in %s, which is not a plain setter", key, fn.Name())
+					ob.Fail("%s is a configure-before-run field but is stored in %s, which is not a plain setter", key, an.NameOf(fn))
 				}
 			case "logon-handler":
 				okDom := false
@@ -269,7 +269,7 @@ func runC20(c *core.Ctx, o Options) {
 					ob.Fail("%s is replaced outside the Logon handler's pre-start section: concurrent senders and timer goroutines read it without synchronisation", key)
 				}
 			default:
-				ob.Fail("field %s is written in %s outside its constructor but has no guard in the guarded-by table: a new shared mutable field needs a lock (or an entry with a reason)", key, fn.Name())
+				ob.Fail("field %s is written in %s outside its constructor but has no guard in the guarded-by table: a new shared mutable field needs a lock (or an entry with a reason)", key, an.NameOf(fn))
 			}
 		})
 	}
@@ -305,8 +305,8 @@ func runC20(c *core.Ctx, o Options) {
 				}
 				n++
 				ls := la.At[call]
-				c.Check(ls.Holds(hmu, "h", an.ModeW), "message-lock", fn.Name(), what+" under DefaultHandler.mu", call.Pos(), "held: "+ls.String(),
-					fn.Name()+" "+what+" without DefaultHandler.mu (lockset "+ls.String()+"): a ResendRequest served meanwhile serializes the same stored object under that mutex — two goroutines write one message")
+				c.Check(ls.Holds(hmu, "h", an.ModeW), "message-lock", an.NameOf(fn), what+" under DefaultHandler.mu", call.Pos(), "held: "+ls.String(),
+					an.NameOf(fn)+" "+what+" without DefaultHandler.mu (lockset "+ls.String()+"): a ResendRequest served meanwhile serializes the same stored object under that mutex — two goroutines write one message")
 			})
 		}
 		c.Check(n >= 2, "message-lock", "", "message operations on the handler's send path found", token.NoPos, fmt.Sprint(n), fmt.Sprintf("only %d found (a Range call and ToBytes at least)", n))
@@ -354,7 +354,7 @@ func runC20(c *core.Ctx, o Options) {
 						late = c.RelPos(st.Pos())
 					}
 				}
-				c.Check(late == "", "captured-variable", fn.Name(), "variable "+cell.Comment+" shared with "+mc.Fn.Name()+" is assigned before that callback exists", mc.Pos(), "all assignments precede the function literal",
+				c.Check(late == "", "captured-variable", an.NameOf(fn), "variable "+cell.Comment+" shared with "+mc.Fn.Name()+" is assigned before that callback exists", mc.Pos(), "all assignments precede the function literal",
 					"variable "+cell.Comment+" is read by "+mc.Fn.Name()+", which another goroutine runs, and is assigned afterwards at "+late+" without synchronisation")
 			}
 		})
@@ -439,7 +439,7 @@ func checkFreshMessages(c *core.Ctx, s *sess, rule string) {
 			}
 			rc, isCall := root.(*ssa.Call)
 			okBuild := isCall && rc.Call.IsInvoke() && (rc.Call.Method.Name() == "Build" || rc.Call.Method.Name() == "New")
-			c.Check(inLp && okBuild, rule, fn.Name(), "each iteration sends a newly built message", call.Pos(), "Build() inside the loop",
+			c.Check(inLp && okBuild, rule, an.NameOf(fn), "each iteration sends a newly built message", call.Pos(), "Build() inside the loop",
 				"the message sent in this loop is built outside it ("+an.Render(root)+"): the same object is stored for retransmission and re-stamped on the next iteration, unsynchronised with the resend path that serializes it")
 		})
 	}
@@ -476,7 +476,7 @@ func closureEscapesToOtherGoroutine(mc *ssa.MakeClosure) bool {
 		if cc.IsInvoke() {
 			name = cc.Method.Name()
 		} else if cal := an.StaticCallee(cc); cal != nil {
-			name = cal.Name()
+			name = an.NameOf(cal)
 			if cal.Pkg != nil && cal.Pkg.Pkg.Path() == "time" && name == "AfterFunc" {
 				return true
 			}
